@@ -7,7 +7,10 @@ enum member), data-driven loops over (label, set) pairs, hoisted common subexpre
 De-Morganed / inverted conditions, `while True` + break rewritten as `for .. in iter(callable, sentinel)` or as a
 read-ahead loop, loops over a tuple of names, conditional expressions, nested helper functions, wrappers in the
 pretty-function table; comprehension / generator pipelines rewritten as explicit loops (append under a `not in` guard,
-seen-set) and back, tuple targets vs subscripts, map + lambda; stream reads rewritten as slices of the data and back."""
+seen-set) and back, tuple targets vs subscripts, map + lambda; stream reads rewritten as slices of the data and back;
+helper functions inlined at their call sites (the NUL cut written in place) and helper methods extracted (uris / domains
+through one parametrised method); the padding filter of uris spelled as a comprehension `if`, `continue`, `!=`, filter(),
+a dict store in a loop; the kill date fields cut with string slices, // and %, divmod."""
 
 from selftest.corpus import M, T
 
@@ -298,20 +301,21 @@ T("C03", "twin-gargle-read-ahead", F, "", "", edits=[
 # ------------------------------------------------------------------------------------------------ R8 domains / uris: which member of each pair, de-duplicated by what
 # (comprehension / generator pipeline <-> explicit loop, seen-set, subscripts instead of tuple targets, map + itemgetter,
 # dict comprehension: the same selection; the other member, or values of a dict keyed by the other member: not)
-_URIS = "        return list(dict.fromkeys(uri for (_domain, uri) in self.domain_uri_pairs))"
+# (the uris projection carries the padding filter since the F24 repair: the twins keep it, in whatever spelling)
+_URIS = "        return list(dict.fromkeys(uri for (_domain, uri) in self.domain_uri_pairs if uri is not None))"
 _DOMS = "        return list(dict.fromkeys(domain for (domain, _uri) in self.domain_uri_pairs))"
-T("C03", "twin-uris-append-loop", F, _URIS, "        found = []\n        pairs = self.domain_uri_pairs\n        for pair in pairs:\n            u = pair[1]\n            if u in found:\n                continue\n            found.append(u)\n        return found")
+T("C03", "twin-uris-append-loop", F, _URIS, "        found = []\n        pairs = self.domain_uri_pairs\n        for pair in pairs:\n            u = pair[1]\n            if u is None or u in found:\n                continue\n            found.append(u)\n        return found")
 T("C03", "twin-domains-seen-set", F, _DOMS, "        out, seen = [], set()\n        for d, _u in self.domain_uri_pairs:\n            if d not in seen:\n                seen.add(d)\n                out.append(d)\n        return out")
 T("C03", "twin-domains-dict-of-pairs", F, _DOMS, "        return list(dict(self.domain_uri_pairs))")
-T("C03", "twin-uris-listcomp-subscript", F, _URIS, "        uris = [p[-1] for p in self.domain_uri_pairs]\n        return list(dict.fromkeys(uris).keys())")
-T("C03", "twin-uris-dictcomp", F, _URIS, "        return list({uri: None for _domain, uri in self.domain_uri_pairs})")
-T("C03", "twin-uris-map-lambda", F, _URIS, "        return list(dict.fromkeys(map(lambda pair: pair[1], self.domain_uri_pairs)))")
-T("C03", "twin-uris-empty-guard", F, _URIS, "        pairs = self.domain_uri_pairs\n        if not pairs:\n            return []\n        return list(dict.fromkeys(uri for (_domain, uri) in pairs))")
-T("C03", "twin-uris-reshaped-beyond-recognition", F, _URIS, "        return list(dict.fromkeys(list(zip(*self.domain_uri_pairs))[1])) if self.domain_uri_pairs else []")
+T("C03", "twin-uris-listcomp-subscript", F, _URIS, "        uris = [p[-1] for p in self.domain_uri_pairs if p[-1] is not None]\n        return list(dict.fromkeys(uris).keys())")
+T("C03", "twin-uris-dictcomp", F, _URIS, "        return list({uri: None for _domain, uri in self.domain_uri_pairs if not uri is None})")
+T("C03", "twin-uris-map-lambda", F, _URIS, "        return list(dict.fromkeys(filter(lambda u: u is not None, map(lambda pair: pair[1], self.domain_uri_pairs))))")
+T("C03", "twin-uris-empty-guard", F, _URIS, "        pairs = self.domain_uri_pairs\n        if not pairs:\n            return []\n        return list(dict.fromkeys(uri for (_domain, uri) in pairs if None is not uri))")
+T("C03", "twin-uris-reshaped-beyond-recognition", F, _URIS, "        return [u for u in dict.fromkeys(list(zip(*self.domain_uri_pairs))[1]) if u is not None] if self.domain_uri_pairs else []")
 T("C03", "twin-pairs-listcomp", F, "        return list(grouper(null_terminated_str(domains).split(\",\"), 2))", "        return [pair for pair in grouper(null_terminated_str(domains).split(\",\"), 2)]")
 M("C03", "uris-loop-appends-domain", F, _URIS, "        uris = []\n        for domain, uri in self.domain_uri_pairs:\n            if domain not in uris:\n                uris.append(domain)\n        return uris", "C03.R8")
-M("C03", "uris-loop-deduplicated-by-domain", F, _URIS, "        uris, seen = [], set()\n        for domain, uri in self.domain_uri_pairs:\n            if domain in seen:\n                continue\n            seen.add(domain)\n            uris.append(uri)\n        return uris", "C03.R8")
-M("C03", "uris-dictcomp-values", F, _URIS, "        return list({d: u for d, u in self.domain_uri_pairs}.values())", "C03.R8")
+M("C03", "uris-loop-deduplicated-by-domain", F, _URIS, "        uris, seen = [], set()\n        for domain, uri in self.domain_uri_pairs:\n            if domain in seen:\n                continue\n            seen.add(domain)\n            if uri is not None:\n                uris.append(uri)\n        return uris", "C03.R8")
+M("C03", "uris-dictcomp-values", F, _URIS, "        return list({d: u for d, u in self.domain_uri_pairs if u is not None}.values())", "C03.R8")
 M("C03", "domains-subscript-second", F, _DOMS, "        return list(dict.fromkeys(p[1] for p in self.domain_uri_pairs))", "C03.R8")
 
 # ------------------------------------------------------------------------------------------------ R10 pivot frame header: the window (offset 2, length L - 4) of the data
@@ -442,3 +446,48 @@ M("C03", "frame-stream-keyword-prefix-little", F, "", "", "C03.R10", edits=[
 ])
 M("C03", "nul-cut-rsplit-keywords", F, "    a, _, _ = data.partition(b\"\\x00\")\n    return a\n", "    return data.rsplit(sep=b\"\\x00\", maxsplit=1)[0]\n", "C03.R7")
 M("C03", "pairs-split-keyword-semicolon", F, "null_terminated_str(domains).split(\",\")", "null_terminated_str(domains).split(sep=\";\")", "C03.R8")
+
+# ------------------------------------------------------------------------------------------------ wave 8
+# R7 null_terminated_str: the cut helper inlined at its call site (reverse of extract-function) - what is decoded is
+# judged as a term (any form of lemma P0 over the parameter, or a package function that returns such a cut), not by the
+# name of the helper; the cut at the LAST NUL / another codec written in place are still reported
+_NTS = "    return null_terminated_bytes(data).decode(\"latin-1\", \"ignore\")"
+T("C03", "twin-str-cut-inlined-split", F, _NTS, "    return data.split(b\"\\x00\", 1)[0].decode(\"latin-1\", \"ignore\")")
+T("C03", "twin-str-cut-inlined-partition-temp", F, _NTS, "    parts = data.partition(b\"\\x00\")\n    raw = parts[0]\n    return raw.decode(encoding=\"iso-8859-1\", errors=\"ignore\")")
+M("C03", "str-cut-inlined-rpartition", F, _NTS, "    head, _, _ = data.rpartition(b\"\\x00\")\n    return head.decode(\"latin-1\", \"ignore\")", "C03.R7")
+M("C03", "str-cut-inlined-ascii", F, _NTS, "    head, _, _ = data.partition(b\"\\x00\")\n    return head.decode(\"ascii\", \"ignore\")", "C03.R7")
+
+# R8 kill date: the fields are digit windows of the decimal YYYYMMDD value, however they are spelled (string slices,
+# // and %, divmod); a window with other bounds is reported
+_KD = ("            date_str = str(killdate)\n"
+       "            year = int(date_str[:4])\n"
+       "            month = int(date_str[4:6])\n"
+       "            day = int(date_str[6:8])\n")
+T("C03", "twin-killdate-arithmetic", F, _KD, "            year = killdate // 10000\n            month = killdate // 100 % 100\n            day = killdate % 100\n")
+T("C03", "twin-killdate-divmod", F, _KD, "            year, rest = divmod(killdate, 10000)\n            month, day = divmod(rest, 100)\n")
+T("C03", "twin-killdate-negative-slices", F, _KD, "            date_str = f\"{killdate}\"\n            year = int(date_str[:-4])\n            month = int(date_str[-4:-2])\n            day = int(date_str[-2:])\n")
+M("C03", "killdate-day-one-digit", F, _KD, "            year = killdate // 10000\n            month = killdate % 10000 // 100\n            day = killdate % 10\n", "C03.R8")
+M("C03", "killdate-year-three-zeros", F, _KD, "            year = killdate // 1000\n            month = killdate // 100 % 100\n            day = killdate % 100\n", "C03.R8")
+M("C03", "killdate-month-slice-short", F, "            month = int(date_str[4:6])\n", "            month = int(date_str[4:5])\n", "C03.R8")
+M("C03", "killdate-divmod-wrong-modulus", F, _KD, "            year, rest = divmod(killdate, 10000)\n            month, day = divmod(rest, 10)\n", "C03.R8")
+M("C03", "killdate-split-settings-day-before-month", F, "            if year and month and day:\n                killdate = f\"{year:02d}-{month:02d}-{day:02d}\"",
+  "            if year and month and day:\n                killdate = f\"{year:02d}-{day:02d}-{month:02d}\"", "C03.R8")
+
+# R8 uris (F24): a projection may drop exactly the padding value of the pairing helper, and uris has to - every way
+# the second member of a pair reaches the result passes a test that excludes it (loop / continue / != / helper method /
+# dict store / filter() spellings of the same filter are the same dominance fact)
+T("C03", "twin-uris-continue-on-padding", F, _URIS, "        uris = []\n        for _domain, uri in self.domain_uri_pairs:\n            if uri is None:\n                continue\n            if uri not in uris:\n                uris.append(uri)\n        return uris")
+T("C03", "twin-uris-dict-store-loop", F, _URIS, "        unique = {}\n        for pair in self.domain_uri_pairs:\n            if pair[1] != None:\n                unique[pair[1]] = None\n        return list(unique.keys())")
+T("C03", "twin-uris-filter-after-dedup", F, _URIS, "        return [u for u in dict.fromkeys(uri for (_domain, uri) in self.domain_uri_pairs) if u is not None]")
+T("C03", "twin-uris-helper-method", F, _URIS, "        return self._column(1)\n\n    def _column(self, which: int) -> List[str]:\n        return list(dict.fromkeys(p[which] for p in self.domain_uri_pairs if p[which] is not None))")
+T("C03", "twin-pairs-explicit-fillvalue", F, "        return list(grouper(null_terminated_str(domains).split(\",\"), 2))", "        return list(grouper(null_terminated_str(domains).split(\",\"), 2, fillvalue=None))")
+M("C03", "uris-loop-without-padding-filter", F, _URIS, "        uris = []\n        for _domain, uri in self.domain_uri_pairs:\n            if uri not in uris:\n                uris.append(uri)\n        return uris", "C03.R8")
+M("C03", "uris-filter-tests-the-domain", F, _URIS, "        return list(dict.fromkeys(uri for (domain, uri) in self.domain_uri_pairs if domain is not None))", "C03.R8")
+M("C03", "uris-filter-inverted", F, _URIS, "        return list(dict.fromkeys(uri for (_domain, uri) in self.domain_uri_pairs if uri is None))", "C03.R8")
+M("C03", "uris-helper-method-unfiltered", F, _URIS, "        return self._column(1)\n\n    def _column(self, which: int) -> List[str]:\n        return list(dict.fromkeys(p[which] for p in self.domain_uri_pairs))", "C03.R8")
+M("C03", "domains-dropped-without-uri", F, _DOMS, "        return list(dict.fromkeys(domain for (domain, uri) in self.domain_uri_pairs if uri is not None))", "C03.R8")
+M("C03", "uris-from-even-filtered", F, _URIS, "        return list(dict.fromkeys(_domain for (_domain, uri) in self.domain_uri_pairs if uri is not None))", "C03.R8")
+T("C03", "twin-killdate-text-slices-shown", F, _KD + "            killdate = f\"{year:02d}-{month:02d}-{day:02d}\"\n        else:",
+  "            date_str = str(killdate)\n            killdate = f\"{date_str[:4]}-{date_str[4:6]}-{date_str[6:]}\"\n        else:")
+M("C03", "killdate-text-slices-day-month-swapped", F, _KD + "            killdate = f\"{year:02d}-{month:02d}-{day:02d}\"\n        else:",
+  "            date_str = str(killdate)\n            killdate = f\"{date_str[:4]}-{date_str[6:]}-{date_str[4:6]}\"\n        else:", "C03.R8")
